@@ -91,6 +91,7 @@ func result_[T any](i int) T         { var z T; return z }
 func wild_() int                     { return 0 }
 func wildcap_() int                  { return 0 }
 func rangeidx_() int                 { return 0 }
+func rangeidxn_(n int) int           { return 0 }
 func alloc_() int                    { return 0 }
 func ref_(x any) int                 { return 0 }
 func pointee_(x any) int             { return 0 }
